@@ -360,6 +360,9 @@ func (s *source) next() *rtp.Packet {
 		}
 		return &c
 	}
+	if len(p.Payload) > 65535 { // (what fits into a UDP datagram / an interleaved frame)
+		p.Payload = p.Payload[:65535]
+	}
 	return p
 }
 
